@@ -132,6 +132,18 @@ CLAIMS = {
              "start/claim-delay grid around the veto window, latencies {0, 1, 5 ms}.",
         technique="Lean 4 handler theorems over hand model with regenerated NAME codec; correspondence; network oracle incl. re-entrant delivery",
         design="§8 C04"),
+    'C05': dict(
+        text="Proof (Lean 4): on the J1939-21 layer a PDU1 frame whose destination is neither global nor locally accepted — any PGN incl. TP "
+             "RTS/CTS/DT/abort, request, claim — returns the SAME state and no output; by induction any foreign session leaves a bystander "
+             "unchanged and silent; the ECU dispatch hands a PDU to exactly the matching registrations (no address / integer address or global / "
+             "predicate or global), once each, in order; destination 255 matches every registration; a CA without an address accepts nothing "
+             "destination-specific, an operational one exactly its address and 255; the listener forwards iff extended and not "
+             "remote/error/stopped (all 16 combinations).  Partial: the J1939-22 acceptance logic is exercised by the oracle on the real code "
+             "only (no Dll22 theorems yet).",
+        note="Proved/validated for the code as repaired by fix D18. Tie: Dll21 hostile-script correspondence, ECU dispatch scripts with int/"
+             "predicate/unfiltered registrations (incl. address 0), CA scripts, the real MessageListener with real can.Message flag combinations.",
+        technique="Lean 4 no-op / decision-logic theorems + induction over foreign frame sequences; correspondence; addressing oracle on both DLLs",
+        design="§8 C05"),
 }
 
 NOT_YET = {}
